@@ -7,43 +7,77 @@ open TunnelModel TunnelModel.Lifecycle
 def keyCode (s : String) : Nat :=
   if s = "-" then 0 else s.toList.foldl (fun a c => a * 256 + c.toNat) 0
 
+/-- a caller inside WaitForReady: (id, key code or `none` for the whole handler, released) -/
+abbrev Waiter := Nat × Option Nat × Bool
+
 structure RegState where
   reg : Registry := {}
+  waiters : List Waiter := []
 
-def showReg (r : Registry) (extra cb : String) : String :=
-  s!"{extra}all=[{joinWith "," (r.all.map toString)}] ready={if r.readyAll then "1" else "0"} cb=[{cb}]"
+/-- a parked waiter passes as soon as the latch of its pool is closed -/
+def releaseWaiters (r : Registry) (ws : List Waiter) : List Waiter :=
+  ws.map (fun (id, k, rel) =>
+    let blocks := match k with | none => r.waitBlocksAll | some k => r.waitBlocksKey k
+    (id, k, rel || !blocks))
+
+def showWaiters (ws : List Waiter) : String :=
+  joinWith " " (ws.map (fun (id, _, rel) => s!"{id}:{if rel then "ok" else "parked"}"))
+
+def showRegW (r : Registry) (ws : List Waiter) (extra cb : String) : String :=
+  s!"{extra}all=[{joinWith "," (r.all.map toString)}] ready={if r.readyAll then "1" else "0"} cb=[{cb}] waiters=[{showWaiters ws}]"
 
 def regCmd (st : RegState) (cmd : String) (args : List String) : Option (RegState × String) :=
+  let fin := fun (r : Registry) (ws : List Waiter) (extra cb : String) =>
+    let ws' := releaseWaiters r ws
+    some (({ reg := r, waiters := ws' } : RegState), showRegW r ws' extra cb)
   match cmd with
-  | "r.init" => some ({}, showReg {} "" "")
+  | "r.init" => some ({}, showRegW {} [] "" "")
   | "r.open" =>
     match kvNat args "t", kv args "key" with
+    | some t, some k => fin (st.reg.open t (keyCode k)) st.waiters "" s!"open:{t}"
+    | _, _ => some (st, "bad-op")
+  | "r.doa" =>
+    -- a tunnel that is dead on arrival is registered and removed again at once (openReverseTunnel does not
+    -- look at the channel before adding it): waiters see the latch close
+    match kvNat args "t", kv args "key" with
     | some t, some k =>
-      let r := st.reg.open t (keyCode k)
-      some ({ reg := r }, showReg r "" s!"open:{t}")
+      let r1 := st.reg.open t (keyCode k)
+      let ws1 := releaseWaiters r1 st.waiters
+      fin (r1.close t) ws1 "" s!"open:{t},close:{t}"
     | _, _ => some (st, "bad-op")
   | "r.close" =>
     match kvNat args "t" with
     | some t =>
       let was := st.reg.all.contains t
-      let r := st.reg.close t
-      some ({ reg := r }, showReg r "" (if was then s!"close:{t}" else ""))
+      fin (st.reg.close t) st.waiters "" (if was then s!"close:{t}" else "")
     | none => some (st, "bad-op")
+  | "r.closewait" =>
+    -- the last tunnel closes and a caller starts waiting while it is torn down: it parks on the new latch
+    match kvNat args "t", kvNat args "w" with
+    | some t, some w =>
+      let was := st.reg.all.contains t
+      let r := st.reg.close t
+      fin r (st.waiters ++ [(w, none, false)]) "" (if was then s!"close:{t}" else "")
+    | _, _ => some (st, "bad-op")
+  | "r.wait" =>
+    match kvNat args "w", kv args "key" with
+    | some w, some k => fin st.reg (st.waiters ++ [(w, if k = "*" then none else some (keyCode k), false)]) "" ""
+    | _, _ => some (st, "bad-op")
   | "r.pick" =>
     match kv args "via" with
     | some via =>
       let (r, res) := if via = "all" then st.reg.pickAll else st.reg.pickKey (keyCode ((via.drop 4).toString))
       let served := match res with | some t => toString t | none => "unavailable"
-      some ({ reg := r }, showReg r s!"served={served} " "")
+      fin r st.waiters s!"served={served} " ""
     | none => some (st, "bad-op")
   | "r.ready" =>
     match kv args "key" with
     | some k =>
       let (rd, wb) := if k = "*" then (st.reg.readyAll, st.reg.waitBlocksAll)
                       else (st.reg.readyKey (keyCode k), st.reg.waitBlocksKey (keyCode k))
-      some (st, showReg st.reg s!"ready={if rd then "1" else "0"} waitblocks={if wb then "1" else "0"} " "")
+      fin st.reg st.waiters s!"ready={if rd then "1" else "0"} waitblocks={if wb then "1" else "0"} " ""
     | none => some (st, "bad-op")
-  | "r.all" => some (st, showReg st.reg "" "")
+  | "r.all" => fin st.reg st.waiters "" ""
   | _ => none
 
 end Driver
